@@ -57,8 +57,15 @@ def acquire(engine, st, fr, lockv, owner, lf, node):
     st.held.append((lid, kind, oid, lf))
     inv = engine.cfg.region_inv.get((ocls, lf)) if ocls else None
     if inv is not None:
+        cid = engine.concrete_id(owner.t)
         for (nm, f) in inv(engine, st, owner):
-            st.assume(f)
+            if cid is not None and cid in st.private:
+                # an object created on this path and not shared yet: nobody else can have established the invariant, so it is
+                # proved from what the constructor did so far rather than assumed
+                engine.oblige(st, fr, "monitor invariant %s.%s holds when the lock of the not yet shared new object is taken: %s" % (ocls, lf, nm), "MI", f,
+                              info={"site": engine.site(fr, node)})
+            else:
+                st.assume(f)
 
 
 def release(engine, st, fr, lockv, owner, lf, node):
@@ -376,6 +383,9 @@ def _havoc_heap_for_loop(engine, st, spec, body=None, fr=None):
         st.heap[name] = new
     for p in mutated_local:
         st.assume(st.get("$len", z3.IntVal(p)) >= 0)
+        if st.objcls.get(p) in ("dict", "set") and "$mem" in st.heap:
+            # well-formedness of a real dict / set, whatever the iterations did to it: no members when its length is 0
+            st.assume(z3.Implies(st.get("$len", z3.IntVal(p)) == 0, st.get("$mem", z3.IntVal(p)) == z3.K(Val, z3.BoolVal(False))))
     new_f = tuple(st.arr(n) for n in FUT_ARRAYS)
     for oid in st.futs_seen:
         st.assume(monotone(z3.Select(old_f[0], oid), z3.Select(old_f[1], oid), z3.Select(old_f[2], oid),
@@ -735,6 +745,9 @@ def _listcomp_symbolic(engine, st, fr, e, g, it):
                 raise Unsupported("control flow out of comprehension")
         return
     v, conds, side, s1 = pe
+    for gk in ("wr_tick", "wr_last"):          # observation instants of weak references read by the comprehension body
+        if gk in s1.ghost:
+            st.ghost[gk] = s1.ghost[gk]
     vt = engine.to_val(s1, v)
     ety = v.ty if isinstance(v, Z) else None
     out = b_cont.new_container(engine, st, "list", ety)
